@@ -1,12 +1,14 @@
 import KeepVerif.Proofs.C14Base
 import KeepVerif.Proofs.C14Term
+import KeepVerif.Proofs.C14Recs
 /-!
 # C14 — Block-synchronized state machine runs every phase in its block window
 
 The property theorems live in `Proofs/C14Base.lean` (nominal schedule invariant, end block,
 lockstep, message conservation, `receive_only_current`, the chained `ExecuteDKG` machines) and
 `Proofs/C14Term.lean` (termination of the final drain, unconditional block-window clause of
-the monitor); this file collects them and states the monitor tie.
+the monitor) and `Proofs/C14Recs.lean` (per-record invariant and `holds_model`, the unconditional
+monitor tie); this file collects them.
 -/
 namespace KeepVerif.C14
 end KeepVerif.C14
